@@ -201,7 +201,15 @@ def run_styles(ctx, params):
                 holder = None
                 sm = M(allow_event_without_transition=params["allow"])
             sm.vals = vals
-            sm.bind_events_to(other)
+
+            class Taken:
+                go = "already here"  # a second target on which one event name is already taken
+
+            import warnings as _w
+
+            with _w.catch_warnings():
+                _w.simplefilter("ignore")
+                sm.bind_events_to(other, Taken())
             sm.current_state_value = cur
         try:
             r = ("ret", call_style(ctx, st, sm, holder, other, ev, x))
@@ -316,6 +324,13 @@ def run_listing(ctx, params):
     fa, decl = expected_allowed(cur)
     if listed != fa and listed != decl:
         raise Mismatch("allowed-events-wrong", f"state {cur}: allowed_events = {listed}, expected {fa} (or {decl})")
+    # the model is the source of truth: after the stored state changed behind the machine the listing follows it
+    nxt = STATES[ctx.choose(4, "s1")]
+    sm.model.state = nxt
+    listed2 = [str(e) for e in sm.allowed_events]
+    fa2, decl2 = expected_allowed(nxt)
+    if listed2 != fa2 and listed2 != decl2:
+        raise Mismatch("allowed-events-stale", f"state written to {nxt} (was {cur}): allowed_events = {listed2}, expected {fa2}")
     evs = [str(e) for e in sm.events]
     if sorted(evs) != sorted(EVENTS):
         raise Mismatch("events-wrong", f"events = {evs}, declared {EVENTS}")
